@@ -209,6 +209,28 @@ class Builder:
                 items.append("__typename")
         return "{ " + " ".join(items) + " }"
 
+    def single_root_field(self, root):
+        """exactly one collected root field (possibly selected twice / behind fragments)"""
+        f = self.d(st.sampled_from(self.spec.fields(root)))
+        saved, self.use_directives = self.use_directives, False   # a skipped root field would leave nothing
+        first = self.field_text(root, f, 1)
+        head = self.last_head
+        items = [first]
+        if self.coin(1, 3):
+            items.append(self.field_text_dup(root, f, 1, head))
+        self.use_directives = saved
+        k = self.n(0, 5)
+        body = " ".join(items)
+        if k == 0:
+            self.features.add("inline-fragment")
+            return "{ ... on %s { %s } }" % (root, body)
+        if k == 1 and self.use_fragments:
+            name = "%s%d" % (self.frag_prefix, len(self.frags))
+            self.frags.append([name, root, "{ %s }" % items[-1]])
+            self.features.add("fragment-spread")
+            return "{ %s ...%s }" % (items[0], name)
+        return "{ " + body + " }"
+
     def field_text_dup(self, parent, f, depth, head):
         """the same field again (same response key, same arguments) with another sub-selection"""
         base = GS.named(GS.parse_t(f["type"]))
@@ -237,7 +259,10 @@ def requests(draw, spec, op_kind=None, max_depth=3, use_variables=True, use_frag
     kind = op_kind or draw(st.sampled_from(kinds))
     root = spec[kind]
     b = Builder(draw, spec, max_depth, use_variables, use_fragments, use_directives, int_boundary)
-    body = b.selection_set(root, 0)
+    if kind == "subscription":
+        body = b.single_root_field(root)
+    else:
+        body = b.selection_set(root, 0)
     name = draw(st.sampled_from([None, "Op", "Q1"]))
     header = ""
     vd = _var_defs_text(b.vars)
